@@ -847,6 +847,22 @@ Fixpoint lookup_const (n : string) (t : list (string * string)) : string :=
   | (k, v) :: r => if String.eqb k n then v else lookup_const n r
   end.
 
+(* ---------------- census of the library's encoder functions ---------------- *)
+(* Every function of package packet whose name says it encodes, sorted as the harness extracts them
+   (go/ast).  [true] = modelled by C03 (Model/Encode*.v); [false] = outside C03: the NDP option and
+   RA/RS marshal methods and marshalOptions are modelled by SEND (Model/SendNdp.v, C07), encodeName by
+   SEND/DNS (Model/SendUdp.v).  A new, removed or renamed encoder changes the list. *)
+Definition encoder_census : list (string * bool) :=
+  [ ("DHCP4.AppendOptions", true); ("DNSSearchList.marshal", false); ("EncodeARP", true); ("EncodeDHCP4", true);
+    ("EncodeDNSQuery", true); ("EncodeEther", true); ("EncodeICMPEcho", true); ("EncodeIP4", true); ("EncodeIP6", true);
+    ("EncodeUDP", true); ("Ether.AppendPayload", true); ("Ether.SetPayload", true);
+    ("ICMP6NeighborAdvertisementMarshal", true); ("ICMP6NeighborSolicitationMarshal", true);
+    ("IP4.AppendPayload", true); ("IP4.SetPayload", true); ("IP6.AppendPayload", true); ("IP6.SetPayload", true);
+    ("LinkLayerAddress.marshal", false); ("MTU.marshal", false); ("PrefixInformation.marshal", false);
+    ("RawOption.marshal", false); ("RecursiveDNSServer.marshal", false); ("RouteInformation.marshal", false);
+    ("RouterAdvertisement.marshal", false); ("RouterSolicitation.marshal", false);
+    ("UDP.AppendPayload", true); ("UDP.SetPayload", true); ("encodeName", false); ("marshalOptions", false) ].
+
 (* ---------------- dispatch ---------------- *)
 Definition dispatch (kind : string) (args : list string) : string :=
   if String.eqb kind "ether" then
@@ -958,6 +974,8 @@ Definition dispatch (kind : string) (args : list string) : string :=
         end
     | _ => BADARGS
     end
+  else if String.eqb kind "census" then
+    out3 (join "," (map fst encoder_census)) "-" "-"
   else if String.eqb kind "consts" then
     match args with
     | [n] => out3 (lookup_const n model_consts) "-" "-"
